@@ -178,10 +178,11 @@ def build(model, ranks=None, plain=False, default_resource_ids=False, share_id_o
         if pj.get("inputs") and not model.get("wp_ctor_inputs"):
             wps[i].extend_input_workplace_list([wps[k] for k in pj["inputs"]])
 
+    init_dt = datetime.datetime.strptime(model.get("init_dt", "2020-04-01 08:00:00"), "%Y-%m-%d %H:%M:%S")
+    if model.get("init_tz") is not None:
+        init_dt = init_dt.replace(tzinfo=datetime.timezone(datetime.timedelta(hours=model["init_tz"])))
     project = M.bp.BaseProject(
-        init_datetime=datetime.datetime.strptime(
-            model.get("init_dt", "2020-04-01 08:00:00"), "%Y-%m-%d %H:%M:%S"
-        ),
+        init_datetime=init_dt,
         unit_timedelta=datetime.timedelta(seconds=model.get("unit_s", 60)),
         product=Product(comps),
         organization=Organization(team_list=teams, workplace_list=wps),
